@@ -71,10 +71,18 @@ pub fn router_campaign() -> SimCampaign {
 
 pub fn plan(_tier: Tier) -> Plan {
     Plan {
-        campaigns: vec![Box::new(router_campaign())],
+        campaigns: {
+            let mut c: Vec<Box<dyn DynCampaign>> = vec![Box::new(router_campaign())];
+            c.extend(crate::fullstack::props::c19_campaigns());
+            c
+        },
         enumerators: vec![],
-        rule: "Router level: connect / disconnect / link-failure / takeover histories by 2-6 clients (persistent and clean, some with client ids containing + $ # /) against max_connections in 1..4. After every router turn: live client ids pairwise distinct, live connections <= max_connections, slab alignment; every connection attempt is registered iff its id is free of metacharacters and a slot is free after a takeover removed the older connection of the same id; CONNACK session_present follows the session rule; a takeover ends the older connection. Non-trivial: >=1 rejected connection attempt or a takeover while the connection limit was reached.".into(),
-        assumptions: vec!["CONNECT validation and authentication in mqtt_connect/handle_auth (first sentence of the statement) are checked by the E5 campaigns once merged".into()],
+        rule: "Router level: connect / disconnect / link-failure / takeover histories by 2-6 clients (persistent and clean, some with client ids containing + $ # /) against max_connections in 1..4. After every router turn: live client ids pairwise distinct, live connections <= max_connections, slab alignment; every connection attempt is registered iff its id is free of metacharacters and a slot is free after a takeover removed the older connection of the same id; CONNACK session_present follows the session rule; a takeover ends the older connection. Non-trivial: >=1 rejected connection attempt or a takeover while the connection limit was reached. ".to_string() + crate::fullstack::props::C19_RULE,
+        assumptions: vec![
+            "E5: when an authentication callback is configured it alone decides (the static map is not consulted), as documented by rumqttd's handle_auth unit tests".into(),
+            "E5: connection_timeout_ms is exercised with real time (50-200 ms) only for first bytes that never complete a packet; nothing about timing is asserted; every assertion is barrier-synchronised (sentinel messages, FIFO of the router channel)".into(),
+            "E5: the router loop runs on a harness thread through verif_turn() because Router::spawn() threads can never exit".into(),
+        ],
         min_nontrivial: 200,
     }
 }
